@@ -51,7 +51,7 @@ class UnifiedTeubnerStrey(UnifiedAutocorrelation):
         if self.polydispersity >= 1:
             inv_harmonic_mean = 1 / self.zeta1 - 1 / self.zeta2
             denom = r * inv_harmonic_mean
-            expc = np.where(denom > 1e-15, (np.exp(-r / self.zeta2) - np.exp(-r / self.zeta1)) / denom, 1)
+            expc = np.where(denom > 1e-15, (np.exp(-r / self.zeta2) - np.exp(-r / self.zeta1)) / denom, np.exp(-r / self.zeta1))
             acf = self.corr_func_at_origin * expc
 
         else:
